@@ -56,7 +56,7 @@ pub fn bases() -> Vec<InstRep> {
         ],
         dependencies: vec![(9, lin(vec![(1, 1.0), (2, 2.0)], 1.0))],
         one_hot: vec![(3, vec![1, 4])],
-        sos1: vec![(3, vec![40, 6], vec![1, 2, 4])],
+        sos1: vec![(3, vec![40, 6], vec![1, 2, 4]), (3, vec![6], vec![4, 1])],
         description_name: Some("base0".into()),
         parameters: Some(vec![(100, 1.5)]),
         ..Default::default()
@@ -87,7 +87,8 @@ pub fn bases() -> Vec<InstRep> {
             ConRep::new(2, EQ_ZERO, Some(lin(vec![(2, 1.0)], 0.0))),
         ],
         dependencies: vec![(3, lin(vec![(1, 1.0)], 0.0)), (4, FnRep::Quad { entries: vec![(1, 2, 1.0)], lin: None })],
-        one_hot: vec![(1, vec![1, 2]), (2, vec![2])],
+        // hints listed out of constraint-id order, two of them on the same constraint: all are content
+        one_hot: vec![(2, vec![2]), (1, vec![1, 2]), (2, vec![1])],
         ..Default::default()
     });
     // B4: ids that occur only in explicit-zero entries / zero-coefficient terms still have to be defined
@@ -672,6 +673,12 @@ fn typed_view_diffs(m: &v1::Instance, t: &ommx::Instance) -> Vec<(String, String
     let got_oh: Vec<(u64, BTreeSet<u64>)> = p.constraint_hints.one_hot_constraints.iter().map(|o| (*o.id, o.variables.iter().map(|v| **v).collect())).collect();
     let want_s: Vec<(u64, BTreeSet<u64>, BTreeSet<u64>)> = h.sos1_constraints.iter().map(|s| (s.binary_constraint_id, s.big_m_constraint_ids.iter().cloned().collect(), s.decision_variables.iter().cloned().collect())).collect();
     let got_s: Vec<(u64, BTreeSet<u64>, BTreeSet<u64>)> = p.constraint_hints.sos1_constraints.iter().map(|s| (*s.binary_constraint_id, s.big_m_constraint_ids.iter().map(|c| **c).collect(), s.variables.iter().map(|v| **v).collect())).collect();
+    // the order of the hint lists is not content; every hint is
+    let (mut want_oh, mut got_oh, mut want_s, mut got_s) = (want_oh, got_oh, want_s, got_s);
+    want_oh.sort();
+    got_oh.sort();
+    want_s.sort();
+    got_s.sort();
     if want_oh != got_oh || want_s != got_s {
         out.push(("hints".into(), format!("typed hints {got_oh:?} {got_s:?} vs {want_oh:?} {want_s:?}")));
     }
@@ -707,6 +714,18 @@ fn parametric_catalogue() -> Vec<PFault> {
     let mut v: Vec<PFault> = vec![];
     v.push(("param[0].id:=var[0].id".into(), Box::new(|p| p.parameters[0].id = p.decision_variables[0].id)));
     v.push(("var[1].id:=param[1].id".into(), Box::new(|p| p.decision_variables[1].id = p.parameters[1].id)));
+    // joint uniqueness in isolation: every used id stays defined, only the two id spaces overlap
+    v.push(("unused param[2].id:=var[0].id".into(), Box::new(|p| p.parameters[2].id = p.decision_variables[0].id)));
+    v.push(("parameters += {id of var[1]}".into(), Box::new(|p| {
+        let mut x = v1::Parameter::default();
+        x.id = p.decision_variables[1].id;
+        p.parameters.insert(0, x);
+    })));
+    v.push(("decision_variables += {id of unused param[2]}".into(), Box::new(|p| {
+        let mut d = p.decision_variables[0].clone();
+        d.id = p.parameters[2].id;
+        p.decision_variables.push(d);
+    })));
     v.push(("param[1].id:=param[0].id".into(), Box::new(|p| p.parameters[1].id = p.parameters[0].id)));
     v.push(("var[1].id:=var[0].id".into(), Box::new(|p| p.decision_variables[1].id = p.decision_variables[0].id)));
     v.push(("objective id:=undefined".into(), Box::new(|p| if let Some(f) = p.objective.as_mut() { *id_slots(f).into_iter().next().unwrap() = UNDEF })));
